@@ -148,6 +148,17 @@ LevelBlockOK(e, last) ==
 LevelEndOK(e, count) ==
   LET n == NumCells(e.res) IN count = n[1] * Pow4(n[2]) /\ e.count = count
 
+\* conventions of the world cell (resolution -1, ID 0): it is the root of the tree and has no geometry
+WorldOK(e) ==
+  /\ e.res0_ok /\ Len(e.res0) = 12 /\ NoRepeats(e.res0)
+  /\ \A i \in 1..12 : IsCanonRes(e.res0[i], 0) /\ e.parents_of_res0[i] = Zero32       \* parent of every base cell
+  /\ e.children_default = e.res0                                                      \* children(world) = base cells
+  /\ e.self_children = <<Zero32>>                                                     \* children(world, -1) = world
+  /\ e.world_res = -1
+  /\ e.lookup_minus1 = Zero32                                                         \* lonlat_to_cell(_, -1) = world
+  /\ e.centre_is_origin /\ e.boundary_len = 0                                        \* (0, 0) and an empty ring
+  /\ ~e.parent_of_world_ok                                                            \* the root has no parent
+
 ---------------------------------------------------------------------------
 (* C09: uncompact *)
 
